@@ -56,7 +56,7 @@ def cases(tier, seed):
         n = int(rs.randint(4, nmax + 1))
         out.append({'kind': 'nav', 'n': n, 'p': float(rs.choice([.15, .25, .4, .7])), 'gs': int(rs.randint(1 << 30)),
                     'dk': ['euclid', 'euclid', 'adversarial', 'intties', 'hopdist'][t % 5], 'w': ['bin', 'real', 'int'][t % 3],
-                    'disc': t % 5 in (0, 4)})
+                    'disc': t % 5 in (0, 4), 'dirL': t % 7 == 3})
     for g in G.structured_und(9, seeds=(seed,)):
         out.append({'kind': 'nav', 'g': g, 'gs': seed, 'dk': 'euclid', 'w': 'bin', 'disc': False})
     return out
@@ -154,7 +154,9 @@ def nav_inputs(case):
         A = G.er(n, case['p'], False, case['gs'])
         if not case['disc']:
             A = ((A + G.prufer_tree(n, case['gs'])) > 0).astype(float)
-    L = G.weigh(A, case['w'], case['gs'], symmetric=True)
+    if case.get('dirL'):
+        A = G.er(len(A), .3, True, case['gs'] + 5)
+    L = G.weigh(A, case['w'], case['gs'], symmetric=not case.get('dirL'))
     pts = rs.rand(n, 2)
     if case['dk'] == 'euclid':
         D = np.sqrt(((pts[:, None, :] - pts[None, :, :]) ** 2).sum(-1))
@@ -175,7 +177,7 @@ def nav_inputs(case):
 def run_nav(case, bct, REC):
     L, D = nav_inputs(case)
     n = len(L)
-    ties = case['dk'] in ('intties', 'hopdist')
+    ties = case['dk'] in ('intties', 'hopdist') or bool(case.get('dirL'))
     mhs = [n, 1, 2] if ties else [None, 1, 2, n]
     for mh in mhs:
         REC.tag(PROP, 'exec')
@@ -198,6 +200,10 @@ def run_nav(case, bct, REC):
                     nfail += 1
                     if not (np.isinf(b) and np.isinf(w) and np.isinf(d)):
                         bad_inf = bad_inf or {'i': i, 'j': j, 'PL': [b, w, d]}
+                    # the stored partial path of a failed navigation is still a walk from i along existing connections
+                    seq = [int(x) for x in paths.get((i, j), [i])]
+                    if not seq or seq[0] != i or any(L[a, c] == 0 for a, c in zip(seq[:-1], seq[1:])):
+                        bad = bad or {'i': i, 'j': j, 'path': seq, 'why': 'failed navigation: stored path is not a walk along existing connections'}
                     continue
                 nsucc += 1
                 seq = [int(x) for x in paths.get((i, j), [])]
